@@ -893,7 +893,8 @@ def run_file_level(chk, ctxs, n, nreads, thorough=False):
                 rng, ctx, rng.randint(max(3, nreads // 3), nreads), p_noqual=0.0 if ctx.has_indels else 0.08
             )  # the vendored realigner (indelpost) dies on records without base qualities: TypeError in count_lowqual_non_ref_bases
             fmt = "bam" if rng.random() < 0.75 else "sam"
-            path = os.path.join(d, f"c{i}.{fmt}")
+            # the same few file names are written again and again with other content (a path-keyed cache inside the loader would show)
+            path = os.path.join(d, f"c{i % 3}.{fmt}")
             write_reads(path, reads, fmt)
             recs = decode_records(path, CHROM)
             case = {"level": "file", "gene": ctx.yaml, "gene_name": ctx.name, "format": fmt, "reads": reads}
@@ -912,7 +913,7 @@ def run_file_level(chk, ctxs, n, nreads, thorough=False):
             check_file_predicate(chk, ctx, recs, sample, case, desc)
             # ineligible reads contribute nothing: the same file without them
             keep = [r for r, rec in zip(write_order(reads, fmt), recs) if spec_eligible(ctx, rec)]
-            p2 = os.path.join(d, f"c{i}_elig.{fmt}")
+            p2 = os.path.join(d, f"c{i % 3}_elig.{fmt}")
             write_reads(p2, keep, fmt)
             _, im2 = impl_file(ctx, p2)
             if im2 != im:
@@ -920,14 +921,14 @@ def run_file_level(chk, ctxs, n, nreads, thorough=False):
             # order independence: the same records in another order (SAM text keeps the order; BAM re-sorted stably from a shuffle)
             sh = list(reads)
             rng.shuffle(sh)
-            p3 = os.path.join(d, f"c{i}_perm.sam")
+            p3 = os.path.join(d, f"c{i % 3}_perm.sam")
             write_reads(p3, sh, "sam")
             _, im3 = impl_file(ctx, p3)
             if im3["table"] != im["table"]:
                 chk.fail("order-independent", desc, case, "equal tables under a permutation of the reads", diff_tables(im3, im))
             # split independence: match runs split / M,=,X exchanged / joined
             alt = [split_variant(rng, r) if rng.random() < 0.7 else merge_variant(r) for r in reads]
-            p4 = os.path.join(d, f"c{i}_split.{fmt}")
+            p4 = os.path.join(d, f"c{i % 3}_split.{fmt}")
             write_reads(p4, alt, fmt)
             _, im4 = impl_file(ctx, p4)
             if im4 != im:
